@@ -182,6 +182,26 @@ func (c *Conv) ToLogical(f *schema.File, t *schema.Type, rv reflect.Value) (v *s
 	return c.to(f, t, rv)
 }
 
+// elem converts a container element: a nil slice/map element is an empty
+// container (elements cannot be unset), any other nil is an error at the caller.
+func (c *Conv) elem(f *schema.File, t *schema.Type, rv reflect.Value) (*schema.Val, error) {
+	v, err := c.to(f, t, rv)
+	if err != nil || v != nil {
+		return v, err
+	}
+	switch rv.Kind() {
+	case reflect.Slice, reflect.Map:
+		st, d, _ := c.P.Resolve(f, t)
+		if d == nil && (st.K == schema.List || st.K == schema.Set || st.K == schema.Map || st.K == schema.Binary) {
+			if st.K == schema.Binary {
+				return &schema.Val{S: []byte{}}, nil
+			}
+			return &schema.Val{Items: []schema.Val{}}, nil
+		}
+	}
+	return nil, nil
+}
+
 func (c *Conv) to(f *schema.File, t *schema.Type, rv reflect.Value) (*schema.Val, error) {
 	if rv.Kind() == reflect.Ptr {
 		if rv.IsNil() {
@@ -236,7 +256,7 @@ func (c *Conv) to(f *schema.File, t *schema.Type, rv reflect.Value) (*schema.Val
 		}
 		out := &schema.Val{Items: []schema.Val{}}
 		for i := 0; i < rv.Len(); i++ {
-			e, err := c.to(g, st.Elem, rv.Index(i))
+			e, err := c.elem(g, st.Elem, rv.Index(i))
 			if err != nil {
 				return nil, err
 			}
@@ -253,7 +273,7 @@ func (c *Conv) to(f *schema.File, t *schema.Type, rv reflect.Value) (*schema.Val
 		out := &schema.Val{Items: []schema.Val{}}
 		if rv.Kind() == reflect.Map {
 			for _, k := range rv.MapKeys() {
-				e, err := c.to(g, st.Elem, k)
+				e, err := c.elem(g, st.Elem, k)
 				if err != nil {
 					return nil, err
 				}
@@ -262,7 +282,7 @@ func (c *Conv) to(f *schema.File, t *schema.Type, rv reflect.Value) (*schema.Val
 			return out, nil
 		}
 		for i := 0; i < rv.Len(); i++ {
-			e, err := c.to(g, st.Elem, rv.Index(i))
+			e, err := c.elem(g, st.Elem, rv.Index(i))
 			if err != nil {
 				return nil, err
 			}
@@ -280,11 +300,11 @@ func (c *Conv) to(f *schema.File, t *schema.Type, rv reflect.Value) (*schema.Val
 		if rv.Kind() == reflect.Map {
 			it := rv.MapRange()
 			for it.Next() {
-				k, err := c.to(g, st.Key, it.Key())
+				k, err := c.elem(g, st.Key, it.Key())
 				if err != nil {
 					return nil, err
 				}
-				x, err := c.to(g, st.Elem, it.Value())
+				x, err := c.elem(g, st.Elem, it.Value())
 				if err != nil {
 					return nil, err
 				}
@@ -297,11 +317,11 @@ func (c *Conv) to(f *schema.File, t *schema.Type, rv reflect.Value) (*schema.Val
 		}
 		for i := 0; i < rv.Len(); i++ {
 			item := rv.Index(i)
-			k, err := c.to(g, st.Key, item.FieldByName("Key"))
+			k, err := c.elem(g, st.Key, item.FieldByName("Key"))
 			if err != nil {
 				return nil, err
 			}
-			x, err := c.to(g, st.Elem, item.FieldByName("Value"))
+			x, err := c.elem(g, st.Elem, item.FieldByName("Value"))
 			if err != nil {
 				return nil, err
 			}
